@@ -999,17 +999,41 @@ def split_tuple_compares(fn: ast.FunctionDef) -> tuple[ast.FunctionDef, int]:
     return new, count
 
 
+def _leftmost_walrus(t: ast.expr):
+    """(walrus, path) when the first leaf the test evaluates is `(name := value)`"""
+    cur = t
+    path = []
+    while True:
+        if isinstance(cur, ast.NamedExpr):
+            return cur, path
+        if isinstance(cur, ast.Compare):
+            path.append((cur, "left"))
+            cur = cur.left
+        elif isinstance(cur, ast.BoolOp):
+            path.append((cur, "values0"))
+            cur = cur.values[0]
+        elif isinstance(cur, ast.UnaryOp):
+            path.append((cur, "operand"))
+            cur = cur.operand
+        else:
+            return None, path
+
+
 def local_normalise(fn: ast.FunctionDef) -> ast.FunctionDef:
     """Always-safe, purely local canonicalisation of a function body (applied to the normalised and to the as-written view):
       * `t = E` directly followed by `return t`, t bound and read nowhere else  ->  `return E`
       * `if a: (if b: X)` with no else on either level and nothing else in the outer body  ->  `if a and b: X`
       * `if c: <block ending in return / raise / continue / break> else: REST`  ->  `if c: ...` followed by REST
+      * `if (x := E) ...:` (walrus evaluated first, not an elif)  ->  `x = E` / `if x ...:`
     The node itself is returned when nothing applies."""
     def _term(body):
         return bool(body) and isinstance(body[-1], (ast.Return, ast.Raise, ast.Continue, ast.Break))
 
     need = False
     for n in ast.walk(fn):
+        if isinstance(n, ast.If) and _leftmost_walrus(n.test)[0] is not None:
+            need = True
+            break
         if isinstance(n, ast.If):
             if (not n.orelse and len(n.body) == 1 and isinstance(n.body[0], ast.If) and not n.body[0].orelse) or (n.orelse and _term(n.body)):
                 need = True
@@ -1033,11 +1057,31 @@ def local_normalise(fn: ast.FunctionDef) -> ast.FunctionDef:
             for fld in ("body", "orelse", "finalbody"):
                 v = getattr(st, fld, None)
                 if isinstance(v, list) and v and isinstance(v[0], ast.stmt) and not isinstance(st, ast.ClassDef):
+                    if fld == "orelse" and isinstance(st, ast.If) and len(v) == 1 and isinstance(v[0], ast.If):
+                        v[0]._xsa_elif = True  # type: ignore[attr-defined]  # hoisting in front of an elif would run before the earlier tests
                     setattr(st, fld, block(v))
             for h in getattr(st, "handlers", []) or []:
                 h.body = block(h.body)
             for c in getattr(st, "cases", []) or []:
                 c.body = block(c.body)
+            # a walrus that is the first thing an `if` test evaluates (not an elif: `stmts` holds plain statements of a block;
+            # an elif is the single statement of an orelse block and is left alone)
+            if isinstance(st, ast.If) and not getattr(st, "_xsa_elif", False):
+                w_, path_ = _leftmost_walrus(st.test)
+                if w_ is not None and isinstance(w_.target, ast.Name):
+                    out.append(ast.copy_location(ast.Assign(targets=[ast.Name(id=w_.target.id, ctx=ast.Store())], value=w_.value), st))
+                    repl = ast.copy_location(ast.Name(id=w_.target.id, ctx=ast.Load()), w_)
+                    if not path_:
+                        st.test = repl
+                    else:
+                        par_, fld_ = path_[-1]
+                        if fld_ == "left":
+                            par_.left = repl
+                        elif fld_ == "values0":
+                            par_.values[0] = repl
+                        else:
+                            par_.operand = repl
+                    changed += 1
             # nested ifs
             while isinstance(st, ast.If) and not st.orelse and len(st.body) == 1 and isinstance(st.body[0], ast.If) and not st.body[0].orelse:
                 inner = st.body[0]
